@@ -121,6 +121,7 @@ fn register_into(
                     CtrlData::ReadC => add_batch_k::<KReadC>(b, bs, id, inner, ctx),
                     CtrlData::WriteC => add_batch_k::<KWriteC>(b, bs, id, inner, ctx),
                     CtrlData::ReadAWriteC => add_batch_k::<KReadAWriteC>(b, bs, id, inner, ctx),
+                    CtrlData::OptReadA => add_batch_k::<KOptReadA>(b, bs, id, inner, ctx),
                 }))
             }
         };
